@@ -51,7 +51,19 @@ envvars == <<stream, limit, faulty>>
 
 Min(a, b) == IF a < b THEN a ELSE b
 
-Idle == [op |-> "idle"]
+\* pend and ret are tuples, not records: TLC 1.8 normalises record values lazily and shares the
+\* field-name array between records built from the same literal, which races with several workers.
+\* pend = <<op, argument, done>>, ret = <<op, a, b, calls>>
+Idle == <<"idle", 0, FALSE>>
+POp(p) == p[1]
+PArg(p) == p[2]
+PDone(p) == p[3]
+ROp(r) == r[1]
+RA(r) == r[2]
+RB(r) == r[3]
+RCalls(r) == r[4]
+NoRet == <<"none", 0, 0, 0>>
+PanicRet == <<"panic", 0, 0, 0>>
 
 \* buf(): the bytes in front of the cursor
 Window == SubSeq(stream, pos + 1, pos + avail)
@@ -59,21 +71,21 @@ AtEnd  == complete /\ avail = 0
 
 \* Does the pending call still need another refill?
 Continue ==
-  CASE pend.op = "request" -> avail < pend.n /\ ~complete
-    [] pend.op = "byte_at" -> avail <= pend.k /\ ~complete
-    [] pend.op = "more"    -> ~pend.done /\ ~complete
+  CASE POp(pend) = "request" -> avail < PArg(pend) /\ ~complete
+    [] POp(pend) = "byte_at" -> avail <= PArg(pend) /\ ~complete
+    [] POp(pend) = "more"    -> ~PDone(pend) /\ ~complete
     [] OTHER               -> FALSE
 
 AInit(s, lim, f, pre) ==
   /\ stream = s /\ limit = lim /\ faulty = f /\ preLeft = pre
   /\ soff = 0 /\ sdone = FALSE /\ scalls = 0
   /\ pos = 0 /\ avail = 0 /\ mark = 0 /\ complete = FALSE /\ err = FALSE
-  /\ pend = Idle /\ ret = [op |-> "none"]
+  /\ pend = Idle /\ ret = NoRet
 
 \* The client starts request(n) / request_byte_at_offset(k) / request_more().
 ACall(p) ==
   /\ pend = Idle
-  /\ p.op \in {"request", "byte_at", "more"}
+  /\ POp(p) \in {"request", "byte_at", "more"}
   /\ pend' = p
   /\ scalls' = 0
   /\ UNCHANGED <<envvars, preLeft, soff, sdone, pos, avail, mark, complete, err, chunk, ret>>
@@ -97,7 +109,7 @@ ARead(offered, kind, n, intr) ==
      \/ /\ kind = "err" /\ n = 0 /\ preLeft = 0 /\ soff = limit /\ faulty
         /\ sdone' = TRUE /\ complete' = TRUE /\ err' = TRUE
         /\ UNCHANGED <<soff, avail, preLeft>>
-  /\ pend' = IF pend.op = "more" THEN [pend EXCEPT !.done = TRUE] ELSE pend
+  /\ pend' = IF POp(pend) = "more" THEN <<"more", 0, TRUE>> ELSE pend
   /\ scalls' = scalls + intr + 1
   /\ UNCHANGED <<envvars, pos, mark, chunk, ret>>
 
@@ -106,18 +118,15 @@ ARead(offered, kind, n, intr) ==
 AOverrun(offered) ==
   /\ pend # Idle /\ Continue /\ ~sdone /\ preLeft = 0
   /\ pend' = Idle
-  /\ ret' = [op |-> "panic"]
+  /\ ret' = PanicRet
   /\ scalls' = scalls + 1
   /\ UNCHANGED <<envvars, preLeft, soff, sdone, pos, avail, mark, complete, err, chunk>>
 
 AReturn ==
   /\ pend # Idle /\ ~Continue
-  /\ ret' = CASE pend.op = "request" -> [op |-> "request", len |-> avail, short |-> avail < pend.n,
-                                          calls |-> scalls]
-              [] pend.op = "byte_at" -> [op |-> "byte_at", some |-> pend.k < avail,
-                                          byte |-> IF pend.k < avail THEN stream[pos + pend.k + 1] ELSE -1,
-                                          calls |-> scalls]
-              [] pend.op = "more"    -> [op |-> "more", val |-> pend.done, calls |-> scalls]
+  /\ ret' = CASE POp(pend) = "request" -> <<"request", avail, avail < PArg(pend), scalls>>
+              [] POp(pend) = "byte_at" -> <<"byte_at", PArg(pend) < avail, IF PArg(pend) < avail THEN stream[pos + PArg(pend) + 1] ELSE -1, scalls>>
+              [] POp(pend) = "more"    -> <<"more", PDone(pend), 0, scalls>>
   /\ pend' = Idle
   /\ UNCHANGED <<envvars, preLeft, soff, sdone, scalls, pos, avail, mark, complete, err, chunk>>
 
@@ -125,44 +134,44 @@ AReturn ==
 AAdvance(n) ==
   /\ pend = Idle /\ n >= 0 /\ n <= avail
   /\ pos' = pos + n /\ avail' = avail - n
-  /\ ret' = [op |-> "advance", from |-> pos, n |-> n]
+  /\ ret' = <<"advance", pos, n, 0>>
   /\ UNCHANGED <<envvars, preLeft, soff, sdone, scalls, mark, complete, err, chunk, pend>>
 
 \* advance(n) / advance_with_buf(n) with n > buf_len(): documented panic, nothing changes (C14)
 APanicAdvance(n) ==
   /\ pend = Idle /\ n > avail
-  /\ ret' = [op |-> "panic"]
+  /\ ret' = PanicRet
   /\ UNCHANGED <<envvars, preLeft, soff, sdone, scalls, pos, avail, mark, complete, err, chunk, pend>>
 
 ASetMark ==
   /\ pend = Idle
   /\ mark' = pos
-  /\ ret' = [op |-> "set_mark"]
+  /\ ret' = <<"set_mark", 0, 0, 0>>
   /\ UNCHANGED <<envvars, preLeft, soff, sdone, scalls, pos, avail, complete, err, chunk, pend>>
 
 ASetMarkTo(p) ==
   /\ pend = Idle /\ p >= 0
   /\ mark' = p
-  /\ ret' = [op |-> "set_mark"]
+  /\ ret' = <<"set_mark", 0, 0, 0>>
   /\ UNCHANGED <<envvars, preLeft, soff, sdone, scalls, pos, avail, complete, err, chunk, pend>>
 
 ASetChunk(c) ==
   /\ pend = Idle /\ c >= 1
   /\ chunk' = c
-  /\ ret' = [op |-> "set_chunk"]
+  /\ ret' = <<"set_chunk", 0, 0, 0>>
   /\ UNCHANGED <<envvars, preLeft, soff, sdone, scalls, pos, avail, mark, complete, err, pend>>
 
 \* check_io_error(): reports a parked error exactly once
 ACheckIoError ==
   /\ pend = Idle
-  /\ ret' = [op |-> "check", was |-> err]
+  /\ ret' = <<"check", err, 0, 0>>
   /\ err' = FALSE
   /\ UNCHANGED <<envvars, preLeft, soff, sdone, scalls, pos, avail, mark, complete, chunk, pend>>
 
 ANext ==
-  \/ \E n \in ReqArgs : ACall([op |-> "request", n |-> n])
-  \/ \E k \in ReqArgs : ACall([op |-> "byte_at", k |-> k])
-  \/ ACall([op |-> "more", done |-> FALSE])
+  \/ \E n \in ReqArgs : ACall(<<"request", n, FALSE>>)
+  \/ \E k \in ReqArgs : ACall(<<"byte_at", k, FALSE>>)
+  \/ ACall(<<"more", 0, FALSE>>)
   \/ \E o \in 1..MaxOffered, n \in 0..MaxOffered, i \in 0..MaxIntr, kd \in {"n", "eof", "err"} :
         ARead(o, kd, n, i)
   \/ \E o \in 1..MaxOffered : AOverrun(o)
@@ -180,8 +189,8 @@ ANext ==
 Delivered       == pos + avail = soff                 \* nothing lost, duplicated or invented
 CompleteIff     == complete = sdone                   \* complete exactly when the source ended/failed
 ErrOnlyIfFailed == err => (sdone /\ faulty)
-ShortOnlyIfDone == (ret.op = "request" /\ ret.short) => complete
-NoneOnlyIfDone  == (ret.op = "byte_at" /\ ~ret.some) => complete
-MoreTruthful    == (ret.op = "more" /\ ~ret.val) => complete
+ShortOnlyIfDone == (ROp(ret) = "request" /\ RB(ret)) => complete
+NoneOnlyIfDone  == (ROp(ret) = "byte_at" /\ ~RA(ret)) => complete
+MoreTruthful    == (ROp(ret) = "more" /\ ~RA(ret)) => complete
 AbsInv == Delivered /\ CompleteIff /\ ErrOnlyIfFailed /\ ShortOnlyIfDone /\ NoneOnlyIfDone /\ MoreTruthful
 =============================================================================
